@@ -34,6 +34,7 @@ type filterObs struct {
 type sizeParams struct {
 	Ids      []uint64 `json:"ids"`
 	RingBits uint64   `json:"ringBits"`
+	Rel      []int64  `json:"rel"` // offsets from the newest accepted counter the model may present as well
 }
 
 type filterParams struct {
@@ -263,17 +264,31 @@ func replayFilter(res *vio.Result, bi int, b vio.Behaviour, bk string, size uint
 				if !good {
 					drifted = !b.Cex
 				}
-				if good && obs[si] != nil {
+				if good && (obs[si] != nil || b.Cex) {
 					sweep := probe[si]
 					if sweep == nil {
 						sweep = p.Ids
+					}
+					// a counterexample of the design carries no projection: evaluate the property alone on IsOk of the alphabet
+					propOnly := obs[si] == nil
+					if propOnly && len(g.seen) > 0 {
+						sweep = append([]uint64(nil), sweep...)
+						for _, d := range sp.Rel {
+							if m := int64(g.max-off) + d; m >= 0 {
+								sweep = append(sweep, uint64(m))
+							}
+						}
 					}
 					for _, id := range sweep {
 						if id > limit {
 							continue
 						}
 						real := f.IsOk(id + off)
-						if !judge(res, "IsOk", real, model(obs[si][id], real), g, id+off, id, p.Size, bi, si, hist(si)) {
+						want := real
+						if !propOnly {
+							want = model(obs[si][id], real)
+						}
+						if !judge(res, "IsOk", real, want, g, id+off, id, p.Size, bi, si, hist(si)) {
 							good = false
 							drifted = !b.Cex
 							break
